@@ -96,7 +96,7 @@ Definition h_to_implicit_host (g : hostg) : hostg :=
       end) (h_nodes_h g) g.
 
 (** ** what "regenerated" means on graphs *)
-Definition mol_of_host (g : hostg) : molg :=
+Definition molg_of (g : hostg) : molg :=
   LG (map (fun p => (fst p, dec_node (snd p))) (gnodes g)) (gedges g).
 Definition sel3 (a : mnode) : N * Z * Z := (m_el a, m_hc a, m_ch a).
 Definition sel3_eqb (x y : N * Z * Z) : bool :=
@@ -126,9 +126,9 @@ Definition folded_eqb (A B : molg) : bool :=
   && Nat.eqb (fst (free_h A')) (fst (free_h B')) && Nat.eqb (snd (free_h A')) (snd (free_h B')).
 
 Definition regen_exact (T : its) (A B : hostg) : bool :=
-  let '(l, r) := its_decompose T in mol_eqb l (mol_of_host A) && mol_eqb r (mol_of_host B).
+  let '(l, r) := its_decompose T in mol_eqb l (molg_of A) && mol_eqb r (molg_of B).
 Definition regen_folded (T : its) (A B : hostg) : bool :=
-  let '(l, r) := its_decompose T in folded_eqb l (mol_of_host A) && folded_eqb r (mol_of_host B).
+  let '(l, r) := its_decompose T in folded_eqb l (molg_of A) && folded_eqb r (molg_of B).
 
 (** ** the pipeline *)
 Definition id_map (ns : list N) : mapping := map (fun n => (n, n)) ns.
